@@ -517,7 +517,7 @@ def check_reject(case):
 
 
 SUBCHECKS = [
-    SubCheck("adjoint_identity", check_adjoint, _dual_case, nt_dual, quick=36000, thorough=576000),
+    SubCheck("adjoint_identity", check_adjoint, _dual_case, nt_dual, quick=36000, thorough=576000, fuzz=10000),
     SubCheck("dual_of_dual", check_double_dual, _double_case, nt_dual, quick=20000, thorough=320000),
     SubCheck("unital_iff_dual_tp", check_unital_tp, _unital_case, nt_unital, quick=24000, thorough=384000),
     SubCheck("complementary", check_complementary, _comp_case, nt_comp, quick=24000, thorough=384000),
